@@ -766,11 +766,32 @@ def emit_fn(unit, blk, rel):
             ca = blk.closures[k]
             cbody = body.text[toks_b[bs].start:toks_b[be].end]
             cparams = body.text[toks_b[po].end:toks_b[pc].start] if pc > po else ""
+            if ca.get("mode") == "annotate":
+                # R18: a closure without mutable captures stays a closure; the contract supplies its parameter types,
+                # return name and requires/ensures, tuple patterns become let-bindings; the BODY is verbatim and is verified
+                real_pats = split_top(cparams)
+                decl = split_top(ca.get("params", ""))
+                if len(real_pats) != len(decl):
+                    raise ExtractError(f"lost anchor: closure {k} of {name} has {len(real_pats)} parameters, contract {len(decl)}")
+                binds = ""
+                for pat, d in zip(real_pats, decl):
+                    dn = d.split(":")[0].strip()
+                    pn = pat.split(":")[0].strip() if not pat.strip().startswith("(") else pat.strip()
+                    if pn != dn:
+                        binds += f"let {pn} = {dn}; "
+                mv = "move " if toks_b[s].text == "move" else ""
+                spec = MARK.format(f"closure {k} spec") if f"closure {k} spec" in blk.sections else ""
+                inner = cbody
+                rep = f"{mv}|{ca.get('params', '')}| -> {ca['ret']} {spec} {{ {binds}{inner} }}"
+                edits.append((toks_b[s].start, toks_b[be].end, rep))
+                continue
             closure_defs.append(make_closure(unit, blk, k, ca, cparams, cbody, body.text, toks_b, s, base))
             edits.append((toks_b[s].start, toks_b[be].end, f"&mut __clo{k}"))
         body.edit(edits, "R9")
         # declare the closure objects right before the statement that contains them
         for k in sorted(blk.closures):
+            if blk.closures[k].get("mode") == "annotate":
+                continue
             toks_b = body.toks()
             pos = None
             for i2, t in enumerate(toks_b):
@@ -837,7 +858,7 @@ def emit_fn(unit, blk, rel):
     emit_marked(unit, blk, final, base)
     unit.functions.append(dict(name=newname, src_fn=name, crate=crate, ctx=ctx, props=props,
                                rules=sorted(set(r for r in body.rules if r)), template=rel,
-                               closures=[blk.closures[k]["name"] for k in sorted(blk.closures)]))
+                               closures=[blk.closures[k].get("name", f"closure{k}") for k in sorted(blk.closures)]))
 
 
 def emit_marked(unit, blk, text, base):
